@@ -29,6 +29,14 @@ theorem loadDict_decl (kvs : List (Key × Val)) (s : St) (o a : Bool) : (loadDic
   | nil => rfl
   | cons kv kvs ih => simp only [List.foldl_cons]; rw [ih, loadOne_decl]
 
+theorem loadOne_file (s : St) (o a : Bool) (kv : Key × Val) : (loadOne s o a kv).file = s.file := by
+  unfold loadOne; split <;> (try split) <;> rfl
+theorem loadDict_file (kvs : List (Key × Val)) (s : St) (o a : Bool) : (loadDict s kvs o a).file = s.file := by
+  unfold loadDict
+  induction kvs generalizing s with
+  | nil => rfl
+  | cons kv kvs ih => simp only [List.foldl_cons]; rw [ih, loadOne_file]
+
 theorem flagOne_keeps (s : St) (kv : Key × Val) (k : Key) (v : Val) (h : s.flags k = some v) :
     (flagOne s kv).flags k = some v := by
   unfold flagOne
@@ -70,7 +78,8 @@ where
     | .declare k' d, s, h => by simp only [step]; split <;> (try split) <;> exact h
     | .load kvs o a, s, h => by simp only [step]; rw [loadDict_flags]; exact h
     | .flagValues kvs, s, h => by simp only [step]; exact flagFold_keeps kvs s k v h
-    | .reset, s, h => h
+    | .reset, s, h => by simp only [step]; split <;> (try rw [loadDict_flags]) <;> exact h
+    | .configFile _, s, h => h
     | .setattr _ _, s, h => h
     | .saveRestore cfg inner r, s, h => by
       simp only [step]
@@ -98,7 +107,8 @@ where
           · exact h
     | .load kvs o a, s, h => by simp only [step]; rw [loadDict_decl]; exact h
     | .flagValues kvs, s, h => by simp only [step]; rw [flagFold_decl]; exact h
-    | .reset, s, h => h
+    | .reset, s, h => by simp only [step]; split <;> (try rw [loadDict_decl]) <;> exact h
+    | .configFile _, s, h => h
     | .setattr _ _, s, h => h
     | .saveRestore cfg inner r, s, h => by
       simp only [step]
@@ -131,7 +141,11 @@ where
       simp only [step]; intro k hk; rw [loadDict_decl] at hk; exact h k hk
     | .flagValues kvs, s, h => by
       simp only [step]; intro k hk; rw [flagFold_decl] at hk; exact h k hk
-    | .reset, s, h => h
+    | .reset, s, h => by
+      simp only [step]; split
+      · exact h
+      · intro k hk; rw [loadDict_decl] at hk; exact h k hk
+    | .configFile _, s, h => h
     | .setattr _ _, s, h => h
     | .saveRestore cfg inner r, s, h => by
       simp only [step]
@@ -277,11 +291,34 @@ theorem c20_save_restore_exact (ki : KeyInfo) (s : St) (cfg : List (Key × Val))
     (step ki s (.saveRestore cfg inner raises)).1.loaded = s.loaded := by
   simp only [step]
 
-/-- `reset` drops the loaded values but neither flags nor declarations. -/
+/-- `reset` drops the loaded values but neither flags nor declarations; with `--config-file` the loaded values are
+    afterwards exactly what loading that file into an empty configuration gives - on the first reset and on every
+    later one. -/
 theorem c20_reset_drops_loaded_keeps_flags (ki : KeyInfo) (s : St) :
     let s' := (step ki s .reset).1
-    (∀ k, s'.loaded k = none) ∧ s'.flags = s.flags ∧ s'.decl = s.decl := by
-  simp [step]
+    (s.file = none → ∀ k, s'.loaded k = none) ∧
+    (∀ kvs, s.file = some kvs → s'.loaded = (loadDict { s with loaded := fun _ => none } kvs true true).loaded) ∧
+    s'.flags = s.flags ∧ s'.decl = s.decl ∧ s'.file = s.file := by
+  simp only [step]
+  cases h : s.file with
+  | none => simp
+  | some kvs => simp [loadDict_flags, loadDict_decl, loadDict_file]
+
+/-- resetting twice is resetting once -/
+theorem c20_reset_idempotent (ki : KeyInfo) (s : St) :
+    (step ki (step ki s .reset).1 .reset).1.loaded = (step ki s .reset).1.loaded := by
+  simp only [step]
+  cases h : s.file with
+  | none => simp [h]
+  | some kvs =>
+    have e : ({ loadDict { s with loaded := fun _ => none } kvs true true with loaded := fun _ => none } : St) =
+        { s with loaded := fun _ => none } := by
+      have h1 := loadDict_decl kvs { s with loaded := fun _ => none } true true
+      have h2 := loadDict_flags kvs { s with loaded := fun _ => none } true true
+      have h3 := loadDict_file kvs { s with loaded := fun _ => none } true true
+      generalize loadDict { s with loaded := fun _ => none } kvs true true = t at *
+      cases t; cases s; simp_all
+    simp only [loadDict_file, h, loadDict_decl, loadDict_flags]
 
 /-- A declared key cannot be redeclared: the state is unchanged and the caller gets an error. -/
 theorem c20_no_redeclare (ki : KeyInfo) (s : St) (k : Key) (d : Option Val) (h : (s.decl k).isSome) :
